@@ -5,7 +5,7 @@ import nets
 
 PID = "C04"
 THEOREMS = ["accuflux_spec", "breach_nonodata", "mass_conserved", "upstream_area_spec", "accuflux_ds_spec",
-            "accuflux_ds_blocked", "uparea_outside_is_nodata", "uparea_inside_is_accuflux"]
+            "accuflux_ds_blocked", "uparea_outside_is_nodata", "uparea_inside_is_accuflux", "gen_accuflux_eq", "gen_accuflux_ds_eq"]
 RULE = ("all loop-free closed graphs on n<=4 cells (n<=5 thorough) x fields over {-2..3, nodata} (exhaustive for n<=3, "
         "random beyond) x nodata values chosen to collide with partial sums, through streams.accuflux/accuflux_ds with "
         "random topological orders; random forests to 60 cells through FlwdirRaster.accuflux (int64 and integer-valued "
@@ -42,9 +42,21 @@ def cases(tier, rng):
         nodata = rng.choice([-9999, -1, 7, 0])
         pn = rng.choice([0, 0, 0.15])
         data = [nodata if rng.random() < pn else rng.randint(-3, 9) for _ in range(n)]
-        api = rng.choice(["accu_up_int", "accu_up_float", "accu_down_int", "uparea_cell", "vector_uparea", "kernel_uparea", "uparea_after_add_pits"])
+        api = rng.choice(["accu_up_int", "accu_up_float", "accu_down_int", "uparea_cell", "vector_uparea", "kernel_uparea", "uparea_after_add_pits",
+                          "uparea_ha_twice", "accu_up_narrow", "accu_down_narrow"])
         sq = nets.topo_order(ds)
-        if api.startswith("accu"):
+        if api.endswith("narrow"):
+            # fields of a narrow / unsigned dtype that cannot hold the nodata value; cells equal to its wrapped image
+            dtn = rng.choice(["uint8", "uint16"])
+            wrapped = {"uint8": 241, "uint16": 55537}[dtn]
+            if n > 12:
+                continue
+            # exactly one cell holds the wrapped image of the nodata value; sums stay representable (241 + 12 < 256)
+            hot = rng.randrange(n)
+            data = [(wrapped if i == hot else rng.randint(0, 1)) for i in range(n)]
+            yield {"k": 402 if "down" in api else 401, "args": [ds, sq, data, [-9999]],
+                   "call": {"api": api, "dtype": dtn}, "group": f"rand-{api}"}
+        elif api.startswith("accu"):
             k = 402 if "down" in api else 401
             yield {"k": k, "args": [ds, sq, data, [nodata]], "call": {"api": api}, "group": f"rand-{api}"}
         elif api == "kernel_uparea":
@@ -86,7 +98,7 @@ def impl(case):
         return outl(*call_impl(fn, ds_array(ds), np.array(sq, dtype=np.int32), np.array(a[2], dtype=np.int64), a[3][0]))
     if api.startswith("accu"):
         flw = make_raster(ds)
-        dt = np.float64 if "float" in api else np.int64
+        dt = np.dtype(call["dtype"]) if "dtype" in call else (np.float64 if "float" in api else np.int64)
         data = np.array(a[2], dtype=dt).reshape(1, n)
         before = data.copy()
         st, v = call_impl(flw.accuflux, data, nodata=a[3][0], direction="down" if "down" in api else "up")
@@ -102,6 +114,14 @@ def impl(case):
         if st != "ok":
             return [[-2], [st]]
         return outl(*call_impl(flw.upstream_area, "cell"))
+    if api == "uparea_ha_twice":
+        # 100 m cells are one hectare each: the second call in a metric unit must still be the cell count
+        flw = make_raster(ds, transform=Affine(100.0, 0.0, 0.0, 0.0, -100.0, 0.0))
+        call_impl(flw.upstream_area, "ha")
+        st, v = call_impl(flw.upstream_area, "ha")
+        if st == "ok":
+            v = np.where(np.asarray(v) < 0, -9999, np.asarray(v))
+        return outl(st, v)
     if api == "uparea_cell":
         flw = make_raster(ds)
         return outl(*call_impl(flw.upstream_area, "cell"))
